@@ -52,6 +52,13 @@ def _short_rho(scn):
     scn['features'] = S.features(scn)
 
 
+def _scaling_flag_on(scn):
+    """Scenario mutation: scaling_within_bounds=True on a world where solve() must ignore it with a warning (no bounds, one-sided
+    bounds, or projections) - a documented input the generator never produced (reach probe: solver.py 969-975 executed by no check)."""
+    scn['args']['scaling_within_bounds'] = True
+    scn['features'] = S.features(scn)
+
+
 def _target_leg(tier, oracles, units=40, probes=(), **over):
     """Target enumeration (legs.leg_targets): 'objective is sufficiently small' exit at every record evaluation of a reference run,
     alone and right after a bad value."""
@@ -75,6 +82,8 @@ def _c01(tier):
         dict(name='bounded-growing', leg='swarm', units=U(tier, 100), opts=dict(per_unit=8, oracles=['C01'], salt='growing', profile=P(
             p_bounds=1.0, p_growing=1.0, maxfun_choices=BUDGETS_BIG))),
         _linalg_leg(tier, ['C01'], units=16, p_bounds=1.0),
+        dict(name='scaling-flag-ignored', leg='swarm', units=U(tier, 80), opts=dict(per_unit=8, oracles=['C01'], salt='scalflag', mutate=_scaling_flag_on, profile=P(
+            p_bounds=1.0, p_onesided=1.0, p_scaling=0.0, p_restarts=0.5, p_growing=0.0, maxfun_choices=BUDGETS_BIG, p_buggify=0.5))),
     ]
 
 
@@ -241,6 +250,8 @@ def _c07(tier):
             p_growing=1.0, p_restarts=0.4, maxfun_choices=BUDGETS_BIG))),
         _linalg_leg(tier, ['C07'], p_nsamples=0.3, p_diag=0.3),
         _linalg_leg(tier, ['C07'], units=10, name='linalg-fault-enumeration-growing', p_growing=1.0, p_restarts=0.7),
+        dict(name='scaling-flag-ignored', leg='swarm', units=U(tier, 60), opts=dict(per_unit=8, oracles=['C07'], salt='scalflag', mutate=_scaling_flag_on, profile=P(
+            p_bounds=0.7, p_onesided=1.0, p_scaling=0.0, p_restarts=0.5, p_growing=0.0, maxfun_choices=BUDGETS_MIX, p_buggify=0.5))),
     ]
 
 
@@ -304,6 +315,8 @@ def _c09(tier):
             p_restarts=0.3, p_bounds=0.5, maxfun_choices=[15, 25, 40], **CONVEX))),
         dict(name='convex-small-worlds', leg='swarm', units=U(tier, 200), opts=dict(per_unit=4, oracles=['C09'], probes=('dyk',), salt='small', profile=P(
             p_restarts=0.5, p_bounds=0.5, p_faults=0.2, allow_raise=False, n_choices=[1, 2, 2], maxfun_choices=[8, 12, 15, 20], **CONVEX))),
+        dict(name='convex-scaling-flag-ignored', leg='swarm', units=U(tier, 40), opts=dict(per_unit=2, oracles=['C09'], probes=('dyk',), salt='scalflag', mutate=_scaling_flag_on, profile=P(
+            p_restarts=0.4, p_bounds=1.0, p_onesided=0.0, p_sets_with_bounds=1.0, n_choices=[1, 2, 2, 3], maxfun_choices=[8, 12, 15, 20], **CONVEX))),
     ]
 
 
